@@ -63,6 +63,10 @@ theorem refused_is_identity : refused_is_identity_statement := by
     · simp at h; exact h.symm
     · split at h <;> simp at h
       exact h.symm
+  | eraseInternal uid =>
+    simp only [step] at h
+    split at h <;> simp at h
+    exact h.symm
   | setAlias uid name =>
     simp only [step] at h
     split at h
@@ -389,6 +393,14 @@ theorem inv_step {st st' : St} {op : Op} {out : Out} (h : Inv st)
         simp only [Option.some.injEq, Prod.mk.injEq] at hstep
         rw [← hstep.1]
         exact inv_erase h hc
+  | eraseInternal uid =>
+    simp only [step] at hstep
+    split at hstep
+    · simp only [Option.some.injEq, Prod.mk.injEq] at hstep; rw [← hstep.1]; exact h
+    · rename_i c hc
+      simp only [Option.some.injEq, Prod.mk.injEq] at hstep
+      rw [← hstep.1]
+      exact inv_erase h hc
   | setAlias uid name =>
     simp only [step] at hstep
     split at hstep
@@ -487,6 +499,29 @@ theorem erase_removes_everywhere : erase_removes_everywhere_statement := by
       · intro c hc hcu'
         rw [h.uid_inj c hc c0 hcm (hcu'.trans hcu.symm)]
         simp [List.mem_filter]
+
+/-- the same for the internal erase used by duplicate removal and equations (which also removes
+a *tracked* constituent together with its tracking record) -/
+theorem eraseInternal_removes_everywhere (st : St) (u : Nat) (st' : St) (h : Inv st)
+    (hstep : step st (.eraseInternal u) = some (st', .bool true)) :
+    u ∉ st'.ids ∧ u ∉ st'.store.map (·.uid) ∧ u ∉ st'.texts ∧ u ∉ st'.order ∧ u ∉ st'.tracking ∧
+    (∀ c ∈ st.store, c.uid = u → c.alias ∉ st'.names) := by
+  simp only [step] at hstep
+  split at hstep
+  · simp at hstep
+  · rename_i c0 hc0
+    simp only [Option.some.injEq, Prod.mk.injEq, and_true] at hstep
+    subst hstep
+    obtain ⟨hcm, hcu⟩ := find_eq_some hc0
+    refine ⟨?_, ?_, ?_, ?_, ?_, ?_⟩
+    · simp [List.mem_filter]
+    · rw [mem_map_uid_filter]; simp
+    · simp [List.mem_filter]
+    · simp [List.mem_filter]
+    · simp [List.mem_filter]
+    · intro c hc hcu'
+      rw [h.uid_inj c hc c0 hcm (hcu'.trans hcu.symm)]
+      simp [List.mem_filter]
 
 /-- non-vacuity of `erase_removes_everywhere`: a reachable state in which an erase succeeds -/
 example : ∃ st st', run [.emplace .term 7, .insert 3 "X1" .base 0] = some st ∧
